@@ -111,6 +111,34 @@ class Chief(Role[Person], Symbol):
         return f"Chief({self.person.name})"
 
 
+@dataclass(eq=False)
+class Visitor(Symbol):
+    name: str
+
+    def __repr__(self):
+        return f"{type(self).__name__}({self.name})"
+
+
+@dataclass(eq=False, repr=False)
+class Delegate(Visitor):
+    """only this subclass of the declared role taker type carries the super-property field"""
+    attends: List[Org] = field(default_factory=list)
+
+
+@dataclass(eq=False)
+class Chair(Role[Visitor], Symbol):
+    visitor: Visitor
+    chairs: Org = None
+
+    __hash__ = object.__hash__
+
+    def __eq__(self, other):
+        return self is other
+
+    def __repr__(self):
+        return f"Chair({self.visitor.name})"
+
+
 @dataclass
 class VOrg(Symbol):
     """value equality: two VOrg("x") are equal and hash alike but are distinct instances ("twins")"""
@@ -155,6 +183,16 @@ class HeadOf(WorksFor):
 
 
 @dataclass
+class Attends(PropertyDescriptor):
+    pass
+
+
+@dataclass
+class Chairs(Attends):
+    pass
+
+
+@dataclass
 class SubOrgOf(PropertyDescriptor, TransitiveProperty):
     ...
 
@@ -186,6 +224,8 @@ VPerson.member_of = MemberOf(VPerson, "member_of")
 VOrg.members = Member(VOrg, "members")
 Org.sub_org_of = SubOrgOf(Org, "sub_org_of")
 Unit.under = SubOrgOf(Unit, "under")
+Delegate.attends = Attends(Delegate, "attends")
+Chair.chairs = Chairs(Chair, "chairs")
 Org.wholly_owned_by = WhollyOwnedBy(Org, "wholly_owned_by")
 Org.part_of = PartOf(Org, "part_of")
 Org.has_part = HasPart(Org, "has_part")
@@ -194,4 +234,5 @@ PERSON_CLASSES = {"Person": Person, "Employee": Employee, "Manager": Manager, "V
                   "WorkingStudent": WorkingStudent}
 ORG_CLASSES = {"Org": Org, "Dept": Dept}
 ODD_CLASSES = {"Bag": Bag, "Crate": Crate}
-ALL_CLASSES = {**PERSON_CLASSES, **ORG_CLASSES, "Chief": Chief, "VOrg": VOrg, "VPerson": VPerson, "Unit": Unit}
+ALL_CLASSES = {**PERSON_CLASSES, **ORG_CLASSES, "Chief": Chief, "VOrg": VOrg, "VPerson": VPerson, "Unit": Unit,
+               "Visitor": Visitor, "Delegate": Delegate, "Chair": Chair}
